@@ -7,6 +7,7 @@ import (
 	"encoding/binary"
 	"fmt"
 	"math/big"
+	"reflect"
 	"strings"
 	"time"
 
@@ -18,16 +19,31 @@ import (
 const easyBits = 0x207fffff
 
 type scenario struct {
-	net  netKind
-	ch   *chain.Chain
-	t    *tree
-	tip  *chain.BlockTreeNode
-	desc string
-	seed uint64
+	net             netKind
+	ch              *chain.Chain
+	t               *tree
+	tip             *chain.BlockTreeNode
+	desc            string
+	seed            uint64
 	length, spacing int
 }
 
-func (sc *scenario) register(n *chain.BlockTreeNode) { sc.ch.BlockIndex[n.BlockHash.BIdx()] = n }
+func bkey(h []byte) uint64 { return binary.LittleEndian.Uint64(h[:8]) } // BIdx as the model's number
+
+// register: ch.BlockIndex[hash] = n, mirrored into the chain state the oracle holds for checkBlockM
+func (sc *scenario) register(n *chain.BlockTreeNode) {
+	sc.ch.BlockIndex[n.BlockHash.BIdx()] = n
+	o.MustAsk(fmt.Sprintf("idx %d %d", bkey(n.BlockHash.Hash[:]), sc.t.idx[n]))
+}
+
+// indexSnapshot: every entry of BlockIndex with the node fields CheckBlock could reach
+func indexSnapshot(ch *chain.Chain) map[[btc.Uint256IdxLen]byte]string {
+	m := make(map[[btc.Uint256IdxLen]byte]string, len(ch.BlockIndex))
+	for k, n := range ch.BlockIndex {
+		m[k] = fmt.Sprintf("%p %p %d %d %x %x", n, n.Parent, n.Height, len(n.Childs), n.BlockHash.Hash, n.BlockHeader)
+	}
+	return m
+}
 
 func newScenario(seed uint64, net netKind, length, spacing int) *scenario {
 	g := vlib.NewRng(seed)
@@ -55,6 +71,7 @@ func newScenario(seed uint64, net netKind, length, spacing int) *scenario {
 	}
 	sc.tip = tip
 	sc.ch.SetLast(tip)
+	o.MustAsk(fmt.Sprintf("last %d", sc.t.idx[tip]))
 	return sc
 }
 
@@ -648,6 +665,16 @@ func runBlock(kind string, sc *scenario, s *blockSpec, cons consH, raw []byte, n
 	if dupNode != nil {
 		ch.BlockIndex[bl.Hash.BIdx()] = dupNode
 		defer delete(ch.BlockIndex, bl.Hash.BIdx())
+		// the same entry in the oracle's chain state (a node outside the tree's child lists, as here)
+		pi := -1
+		if dupNode.Parent != nil {
+			pi = sc.t.idx[dupNode.Parent]
+		}
+		ni := o.MustAsk(fmt.Sprintf("node %d %d 0 0", pi, dupNode.Height))
+		sc.t.idx[dupNode] = len(sc.t.nodes)
+		sc.t.nodes = append(sc.t.nodes, dupNode)
+		o.MustAsk(fmt.Sprintf("idx %d %s", bkey(bl.Hash.Hash[:]), ni))
+		defer o.MustAsk(fmt.Sprintf("unidx %d", bkey(bl.Hash.Hash[:])))
 	}
 	// model inputs from the same chain state
 	known := "n"
@@ -667,7 +694,10 @@ func runBlock(kind string, sc *scenario, s *blockSpec, cons consH, raw []byte, n
 	}
 	last := ch.LastBlock()
 	idxLen := len(ch.BlockIndex)
+	idxSnap := indexSnapshot(ch)
+	unspentBefore := ch.Unspent
 	rawCopy := append([]byte{}, raw...)
+	preParsedIn := s.preParsed && bl.Txs != nil
 
 	var dos, later bool
 	var er error
@@ -749,9 +779,45 @@ func runBlock(kind string, sc *scenario, s *blockSpec, cons consH, raw []byte, n
 		r.PropFail("checkblock-panic:"+s.mut, "Chain.CheckBlock panics ("+pan+") on a block of kind "+s.mut, rep)
 		return
 	}
-	if !bytes.Equal(raw, rawCopy) || ch.LastBlock() != last || len(ch.BlockIndex) != idxLen {
-		r.PropFail("checkblock-sideeffect", "Chain.CheckBlock changed the chain state or the raw block (kind "+s.mut+")", rep)
+	if !bytes.Equal(raw, rawCopy) || ch.LastBlock() != last || len(ch.BlockIndex) != idxLen || ch.Unspent != unspentBefore ||
+		!reflect.DeepEqual(idxSnap, indexSnapshot(ch)) || !bytes.Equal(bl.Raw, rawCopy) {
+		r.PropFail("checkblock-sideeffect", "Chain.CheckBlock changed the chain state (BlockIndex entries / node fields / tip / Unspent) or the raw block (kind "+s.mut+")", rep)
 		return
+	}
+	// ---- the model with explicit effects (BlockCheck.checkBlockM): the look-ups are made by the model in its own copy
+	// of the chain state; compared: result, the block-object fields CheckBlock assigns, and the chain state afterwards
+	if !(s.shortRaw > 0 || len(raw) < 80) {
+		buildOk, toks := modelTxTokens(raw)
+		cb := o.MustAsk(fmt.Sprintf("cb %d %d %s %d %d %d %d %d %s %s %d %s %d %d %d %d %d %d %s %s %s %s %s", len(raw), ver, hashHex, bkey(bl.Hash.Hash[:]), bkey(raw[4:36]),
+			bits, btime, now, b2s(sc.net.testnet), b2s(sc.net.testnet4), ch.Consensus.MaxPOWBits, ch.Consensus.MaxPOWValue.String(),
+			cons.bip34, cons.bip65, cons.bip66, cons.csv, cons.segwit, cons.taproot, b2s(preParsedIn), b2s(buildOk), b2s(s.trusted), vlib.Hex(raw[36:68]), strings.Join(toks, " ")))
+		cf := strings.Fields(cb)
+		ntx := "nil"
+		if bl.Txs != nil {
+			ntx = fmt.Sprint(len(bl.Txs))
+		}
+		implM := fmt.Sprintf("%s %s %s %d %d %d %s %d %d", b2s(dos), b2s(later), code, bl.Height, bl.MedianPastTime, bl.VerifyFlags, ntx, len(ch.BlockIndex), sc.t.idx[ch.LastBlock()])
+		modelM := cb
+		if len(cf) == 10 {
+			mc := cf[2]
+			if strings.HasPrefix(mc, "tx:") && strings.HasPrefix(code, "tx:") {
+				for _, e := range strings.Split(mc[3:], "|") {
+					if "tx:"+e == code {
+						mc = code // the goroutines race: any one of the failing transactions may be reported
+					}
+				}
+			}
+			modelM = strings.Join([]string{cf[0], cf[1], mc, cf[3], cf[4], cf[5], cf[6], cf[8], cf[9]}, " ")
+		}
+		rep["model_with_effects"] = modelM
+		if implM != modelM {
+			r.TieFail("tie-checkblock-effects:"+s.mut, fmt.Sprintf("model checkBlockM / impl differ on CheckBlock's result or effects (kind %s): impl=%q model=%q (dos later code Height MedianPastTime VerifyFlags len(Txs) len(BlockIndex) last)", s.mut, implM, modelM), rep)
+			return
+		}
+		r.TieOK()
+		if er != nil {
+			r.Hit("refused-unchanged-confirmed")
+		}
 	}
 	accepted := er == nil
 	if !s.noRef && !s.trusted && pnode != nil && len(raw) >= 80 {
@@ -813,7 +879,7 @@ func oneBlockCaseSeed(kind string, caseSeed uint64, sc *scenario) {
 			rawHex = rawHex[:4000] + "…"
 		}
 		rep := map[string]interface{}{"op": "block", "mutation": s.mut, "raw": rawHex, "scenario": sc.desc, "now_at_run": now,
-			"cons": []uint32{cons.bip34, cons.bip65, cons.bip66, cons.csv, cons.segwit, cons.taproot},
+			"cons":         []uint32{cons.bip34, cons.bip65, cons.bip66, cons.csv, cons.segwit, cons.taproot},
 			"parent_chain": refChain(sc.tip)[:min(len(refChain(sc.tip)), 14)], "trusted": s.trusted, "preparsed": s.preParsed, "dup": s.dupIndex, "short": s.shortRaw,
 			"net": sc.net.name, "parent_back": backSteps(sc.tip, s.parent),
 			"sc_seed": fmt.Sprint(sc.seed), "sc_len": sc.length, "sc_spacing": sc.spacing, "case_seed": fmt.Sprint(caseSeed), "kind": kind}
